@@ -150,7 +150,10 @@ PROBES = [
     ("1.0d-9*k2d3", "dexp_in_identifier", {}),
 ]
 OUT_OF_GRAMMAR = ["-exp(lnTe)", "-(T32+1.0)", "T32*(-invT)", "merge(1.0d0,2.0d0,Tgas>100.)", "max(T32,1.0)", "1.0d0 .gt. T32", "Tgas**-0.5",
-                  "1.5d+3*T32", "exp(-Tgas/1d2", "2.0d0*", "T32 T32"]
+                  "1.5d+3*T32", "exp(-Tgas/1d2", "2.0d0*", "T32 T32",
+                  # legal Fortran with a unary sign in front of a power: the sign applies to the whole power (-a**2 = -(a**2)); if the translator
+                  # ever accepts these, the value must be Fortran's
+                  "-T32**2", "exp(-(Tgas/1d3)**2)", "1.0d-10*exp(-invT**0.5)", "-n(idx_H)**2*1d-10", "+T32**0.5", "2.0d0-(-lnTe**2)", "-sqrt(Tgas)**3"]
 OOG_ALLOWED_VALUE = {"Tgas**-0.5", "max(T32,1.0)", "1.5d+3*T32"}   # legal Fortran/extension: if accepted, the value must still agree
 
 
